@@ -815,11 +815,13 @@ func (f *fragment) unprotectedSetRow(row *Row, rowID uint64) (changed bool, err 
 	// a segment for this shard is an empty row here: the caches still have to
 	// be updated and the removal above still has to be persisted.
 	if seg := row.segment(f.shard); seg != nil {
-		// Put each container from rowSegment to fragment storage.
+		// Put each container from rowSegment to fragment storage. The containers
+		// stay shared with the source row, so they get frozen: a later write
+		// through either side (or a remap during snapshot) is then copy-on-write.
 		citer, _ := seg.data.Containers.Iterator(f.shard << shardVsContainerExponent)
 		for citer.Next() {
 			k, c := citer.Value()
-			f.storage.Containers.Put(headContainerKey+(k%(1<<shardVsContainerExponent)), c)
+			f.storage.Containers.Put(headContainerKey+(k%(1<<shardVsContainerExponent)), c.Freeze())
 		}
 	}
 
